@@ -454,7 +454,7 @@ fn groups(g: &mut Groups) {
     g.prop("tree", 3_000, 150_000, || (twingen::spec_with(0.1), 0u8..=2).prop_map(|(spec, attr)| TreeCase { spec, attr }), check_tree);
     g.prop(
         "tree_cli",
-        3_000,
+        6_000,
         150_000,
         || (twingen::spec_with(0.1), 0u8..=2, 0u8..=2, 1u8..=2).prop_map(|(spec, attr, route, d)| TreeCliCase { tree: TreeCase { spec, attr }, route, other_attr: (attr + d) % 3 }),
         check_tree_cli,
